@@ -213,6 +213,18 @@ def check_find_range(fx, rep, rule):
     ok_pred = False
     pred = None
     positive = False
+    same_pred = {}
+    if len(cl) > 1:
+        # the same predicate written out twice (two closure literals): one predicate if their canonical terms are equal
+        import models as M0
+        try:
+            terms = {c_: M0.closure_term(sy, c_, 1, S.St(), {"sp": "?"}) for c_ in cl}
+            if len(set(terms.values())) == 1:
+                first_c = sorted(cl, key=repr)[0]
+                same_pred = {c_: first_c for c_ in cl}
+                cl = {first_c}
+        except S.Undecidable:
+            pass
     if len(cl) == 1:
         pred = list(cl)[0]
         try:
@@ -235,6 +247,8 @@ def check_find_range(fx, rep, rule):
     from_ = call("std::ops::Index::index", ms, ("adt", "RangeFrom", "RangeFrom", (("start", mid),)))
 
     def rw_split(t):
+        if t[0] == "closure" and t in same_pred:
+            return same_pred[t] if same_pred[t] != t else None
         # `let (before, from_mid) = members.split_at(mid)` names the same two sub-slices as members[..mid] / members[mid..]
         if t[0] == "field" and t[1][0] == "call" and t[1][1] == "core::slice::split_at" and t[1][2] == (ms, mid):
             return before_ if t[2] == "0" else (from_ if t[2] == "1" else None)
